@@ -178,6 +178,11 @@ func (d *HTTPProxyDialer) DialContextR(ctx context.Context, network, addr string
 		conn.Close()
 		return nil, nil, err
 	case res := <-resCh:
+		if res.StatusCode/100 == 2 {
+			// A successful response to CONNECT has no body, Content-Length and
+			// Transfer-Encoding are to be ignored: what follows is tunnel data.
+			res.Body = http.NoBody
+		}
 		return res, conn, nil
 	}
 }
